@@ -43,6 +43,8 @@ func init() {
 				app(2)
 			}
 			app(synth.InitSend(make(chan int, 1)))
+		case 10:
+			app(synth.Misc(c.I2))
 		case 8:
 			app(synth.Timeout(), synth.Cancel())
 		case 9:
